@@ -12,6 +12,7 @@ import numpy as np
 
 from EasyFEA import Models, Simulations
 
+from . import _suite
 from ..core import Ctx, quiet, relerr
 from ..gen import meshes as gm
 from ..ref import geometry as geo
@@ -109,6 +110,9 @@ def cases(tier: str, seed: int) -> list[dict]:
     for i, c in enumerate(out):
         c["id"] = f"C09-{i:05d}-{c['load']}-{c['sim']}-{c['et']}-{c['form']}-{c['sel']}"
         c["index"] = i
+    for c in _suite.suite_cases(PROP, tier):
+        c["index"] = len(out)
+        out.append(c)
     return out
 
 
@@ -177,6 +181,8 @@ def polygon_integral(poly, f2, deg):
 
 
 def run_case(case: dict, ctx: Ctx) -> None:
+    if case.get("fam") == "suite":
+        return _suite.run_suite(case, ctx, PROP)
     rng = np.random.default_rng([case["seed"], NUM, case["index"]])
     if case["load"] == "beam-line":
         return run_beam(case, ctx, rng)
